@@ -167,7 +167,8 @@ def run(prog, rep, tier='quick', config='default'):
                 rep.ok('R2b', k, where=c.where(), fn=c.fn.name, detail='window computed around Tx.settlement_date', trivial=True)
 
     # ------------------------------------------------------------------ R2c
-    scan = prog.fn(SFL + 'get_superficial_loss_info')
+    from props import anchors as _an
+    scan = _an.window_scan(prog, first[0].name, last[0].name) or prog.fn(SFL + 'get_superficial_loss_info')
     if rep.anchor('get_superficial_loss_info (window scan)', scan):
         found = {'upper': 0, 'lower': 0}
         for c in scan.calls:
@@ -234,7 +235,8 @@ def run(prog, rep, tier='quick', config='default'):
                               detail='anchor lost: no comparison of a transaction date with the %s window bound in the scan' % which)
 
     # ------------------------------------------------------------------ R2d
-    val = prog.fn('portfolio::bookkeeping::delta_list::get_delta_superficial_loss_info')
+    from props import anchors
+    val = anchors.sfl_validation(prog) or prog.fn('portfolio::bookkeeping::delta_list::get_delta_superficial_loss_info')
     if rep.anchor('get_delta_superficial_loss_info (specified-SFL validation)', val):
         hits = 0
         for c in val.calls:
